@@ -66,14 +66,15 @@ def sampler_logprob(cfg, obs, z):
 
 def grid():
     if TIER == "quick":
-        cfgs = [(2, 1, 1, 0.5, 0.5), (3, 1, 1, 0.5, 0.8)]
+        # even and odd N; truncation distances below and ABOVE half the grid (the circulant tensors are asymmetric only then)
+        cfgs = [(2, 1, 1, 0.5, 0.5), (3, 1, 1, 0.5, 0.8), (3, 1, 2, 0.5, 0.8), (3, 2, 1, 0.3, 0.8)]
         lens = (1, 2, 3)
         per_len = 1
     else:
-        cfgs = [(n, kt, ko, st, so) for n in (2, 3, 4) for (kt, ko) in ((1, 1), (1, 2)) for (st, so) in ((0.3, 1.5), (0.9, 0.5))
-                if kt < n and ko < n]
+        pairs = ((0.3, 1.5), (0.9, 0.5))
+        cfgs = [(n, kt, ko) + pairs[(n + kt + ko) % 2] for n in (2, 3, 4) for kt in (1, 2, 3) for ko in (1, 2, 3) if kt < n and ko < n]
         lens = (1, 2, 3)
-        per_len = 2
+        per_len = 1
     rng = np.random.default_rng(int(os.environ.get("VERIF_SEED", "0") or 0))
     for c in cfgs:
         for T in lens:
@@ -86,7 +87,9 @@ def grid():
 
 
 def main():
-    out = {"bound": f"tier={TIER}: grid sizes N<=5, sequence length <=4, N^T<=300 latent sequences enumerated exhaustively per case",
+    out = {"bound": f"tier={TIER}: " + ("N in {2,3}, " if TIER == "quick" else "N in {2,3,4}, all truncation distances kt, ko < N (below and above "
+                                        "N/2), ") + "observation sequences of length 1..3 (one per length and configuration, chosen by VERIF_SEED), "
+                    "ALL N^T latent sequences enumerated per case; quick configurations: (N,kt,ko) = (2,1,1), (3,1,1), (3,1,2), (3,2,1)",
            "evaluations": 0, "distinct_nontrivial": 0, "violations": [], "samples": [], "cases": 0}
     key = jax.random.key(1)
     for c, obs in grid():
@@ -128,6 +131,7 @@ def main():
             break
         if len(out["violations"]) >= 3:
             break
+        jax.clear_caches()          # every configuration compiles its own kernels: keep the JIT code cache bounded
     print(json.dumps(out))
 
 
